@@ -2,6 +2,7 @@
 CONSTANTS
   Threads <- T2
   Keys <- K3
+  DirectKeys = {}
   DepsOpts <- AcyclicGraphs
   LoadsOpts <- W2_1
   SharedOpts = {TRUE}
